@@ -883,9 +883,33 @@ def _nlfw_way(fb, R, fn, stor, flag, lookup_q, u=None, ucall=None):
     R.check(ok, r1, fn.q + '#sorts-both-storages-under-flag', fn.site,
             'way() sorts %s but the handler stores into %s' % (sorted(k for k, v in sorts.items() if v), stor))
 
-    def is_lookup(f, n):
+    reach_memo = {}
+
+    def direct_lookup(f, n):
         return n.get('k') == 'call' and (n.get('q') in lookup_q or (n.get('q', '').rsplit('::', 1)[-1] in ('get', 'get_noexcept')
                                                                      and (f.root_var(n.get('recv')) or (None, None, None))[2] in stor))
+
+    def reaches_lookup(g, depth=0):
+        if g.usr not in reach_memo:
+            reach_memo[g.usr] = False
+            r_ = any(direct_lookup(g, m_) for m_ in g.all_nodes())
+            if not r_ and depth < 2:
+                for m_ in g.all_nodes():
+                    if m_.get('k') == 'call' and m_.get('rcls') == fn.cls and 'u' in m_:
+                        h_ = U._callee_for(fb, g, m_)
+                        if h_ is not None and h_.has_cfg and h_.id != g.id and reaches_lookup(h_, depth + 1):
+                            r_ = True
+            reach_memo[g.usr] = r_
+        return reach_memo[g.usr]
+
+    def is_lookup(f, n):
+        """a lookup in one of the storages: directly, through get_node_location(), or through a helper of the class that performs lookups"""
+        if direct_lookup(f, n):
+            return True
+        if n.get('k') == 'call' and n.get('rcls') == fn.cls and 'u' in n and (ucall is None or n['id'] != ucall['id']):
+            g_ = U._callee_for(fb, f, n)
+            return g_ is not None and g_.has_cfg and g_.id != f.id and g_.id != u.id and reaches_lookup(g_)
+        return False
     looks = [n for n in fn.all_nodes() if is_lookup(fn, n)]
     if not looks:
         R.bad(r1, fn.q + '#sort-precedes-every-lookup', fn.site, 'way() performs no lookup')
@@ -950,23 +974,60 @@ def _nlfw_way(fb, R, fn, stor, flag, lookup_q, u=None, ucall=None):
             'after sorting, way() must set the last-seen id to the maximum so that the next node() requests a new sort '
             '(a node appended to the sorted storage with an id between the last and the largest stored id would not be found)')
     # missing location -> not_found unless errors are ignored
+    VALID = {'osmium::Location::(conv)', 'osmium::Location::valid', 'osmium::Location::is_defined'}
+
+    def status_of(f, d):
+        """local bool d records "some location is missing": initialised with a constant, and stored the opposite constant only under a
+        failed validity test of a location -> the value (0 / 1) that means "missing", else None"""
+        init = U.local_init(f, d)
+        v0 = f.const_value(init) if init is not None else None
+        sets = [n for n in f.all_nodes() if n.get('k') == 'assign' and (U.scn(f, n['lhs']) or {}).get('k') == 'var' and U.scn(f, n['lhs']).get('d') == d]
+        if v0 not in (0, 1) or not sets:
+            return None
+        for s_ in sets:
+            if f.const_value(s_['rhs']) != 1 - v0:
+                return None
+            good = False
+            for (c, sn_, b_, o_) in U.guards(f, s_['id']):
+                callees = {f.nodes[x].get('q') for x in f.subtree(c) if f.nodes[x].get('k') == 'call'}
+                if not sn_ and callees & VALID:
+                    good = True
+            if not good:
+                return None
+        return 1 - v0
+
+    def missing_sense(f, c, depth=0):
+        """condition c (an atom of the throw guard) is a status: -> the truth value of c that means "a location is missing", else None"""
+        x = U.scn(f, c)
+        if x is None:
+            return None
+        if x.get('k') == 'var' and x.get('vk') == 'local':
+            m_ = status_of(f, x['d'])
+            if m_ is not None:
+                return bool(m_)
+            init = U.local_init(f, x['d'])
+            if init is not None and x['d'] not in U.assigned_vars(f) and depth < 2:
+                return missing_sense(f, init, depth + 1)
+            return None
+        if x.get('k') == 'call' and x.get('rcls') == fn.cls and 'u' in x and depth < 2:
+            g_ = U._callee_for(fb, f, x)
+            if g_ is None or not g_.has_cfg:
+                return None
+            outs = set()
+            for r_ in [m for m in g_.all_nodes() if m.get('k') == 'return' and 'sub' in m]:
+                outs.add(missing_sense(g_, r_['sub'], depth + 1))
+            return outs.pop() if len(outs) == 1 else None
+        return None
     throws = [n for n in fn.all_nodes() if n.get('k') == 'throw']
     ok = bool(throws) and all(t.get('tt') == NOT_FOUND for t in throws)
-    errv = None
     if ok:
-        for (c, s, b, o) in U.guards(fn, throws[0]['id']):
-            x = fn.sn(c)
-            if s and x is not None and x.get('k') == 'var' and x.get('vk') == 'local':
-                errv = x['d']
-    sets = [n for n in fn.all_nodes() if n.get('k') == 'assign' and (U.scn(fn, n['lhs']) or {}).get('d') == errv and fn.const_value(n['rhs']) == 1] if errv is not None else []
-    ok = ok and bool(sets)
-    for s_ in sets:
-        good = False
-        for (c, s, b, o) in U.guards(fn, s_['id']):
-            callees = {fn.nodes[x].get('q') for x in fn.subtree(c) if fn.nodes[x].get('k') == 'call'}
-            if not s and callees & {'osmium::Location::(conv)', 'osmium::Location::valid', 'osmium::Location::is_defined'}:
-                good = True
-        ok = ok and good
+        for t in throws:
+            hit = False
+            for (c, s, b, o) in U.guards(fn, t['id']):
+                ms = missing_sense(fn, c)
+                if ms is not None and ms == s:
+                    hit = True
+            ok = ok and hit
     R.check(ok, 'N5-missing-location-throws', fn.q + '#not_found-unless-ignored', fn.site,
             'way() must record a missing (invalid) location and throw osmium::not_found unless errors are ignored')
 
